@@ -42,3 +42,28 @@ package numpin
 //@   requires cfg != nil
 //@   at_call Config.applyJSONConfig assert [defaults-first] defaultsN == old(defaultsN) + 1
 //@   modifies *
+
+// ---- C09: "a running peer republishes each of its metrics before the previous one expires": the publisher re-arms
+// from the time-to-live the metric has when it is HANDED OUT, so the clock of a metric starts after the daemon
+// answered (not before the call, whose duration would silently come off its lifetime); the metric is valid only if
+// the daemon answered, and carries the configured time-to-live ----
+//@ ghost var rpcN int
+//@ ghost var rpcFailed bool
+//@ extern rpc.Client.CallContext(ctx, dest, svcName, svcMethod, args, reply)
+//@   counts rpcN when true
+//@   records rpcFailed = err != nil
+//@   modifies *reply
+//@ ghost var ttlSetN int
+//@ extern api.Metric.SetTTL(d)
+//@   counts ttlSetN when true
+//@   ensures [only-the-expiry-changes] self.Valid == old(self.Valid) && self.Name == old(self.Name) && self.Value == old(self.Value)
+//@   ensures forall q *api.Metric :: q != self ==> *q == old(*q)
+//@   modifies heap(api.Metric)
+//@ func (npi *Informer) GetMetric
+//@   property C09
+//@   requires npi != nil && npi.config != nil
+//@   at_call api.Metric.SetTTL assert [the-clock-starts-when-the-daemon-has-answered] rpcN == old(rpcN) + 1 && d == npi.config.MetricTTL
+//@   ensures res != nil
+//@   ensures [valid-only-if-the-daemon-answered] res.Valid ==> rpcN == old(rpcN) + 1 && !rpcFailed
+//@   ensures [a-handed-out-metric-has-a-ttl] rpcN == old(rpcN) + 1 ==> ttlSetN == old(ttlSetN) + 1
+//@   modifies rpcN, rpcFailed, ttlSetN, heap(api.Metric)
